@@ -172,8 +172,9 @@ impl ByronAddress {
         addr_bytes.finalize()
     }
     pub fn from_bytes(bytes: Vec<u8>) -> Result<ByronAddress, JsError> {
-        let mut raw = Deserializer::from(std::io::Cursor::new(bytes));
-        let extended_addr = ExtendedAddr::deserialize(&mut raw)?;
+        use std::convert::TryFrom;
+        let extended_addr =
+            ExtendedAddr::try_from(&bytes[..]).map_err(|e| DeserializeError::from(e))?;
         Ok(ByronAddress(extended_addr))
     }
     /// returns the byron protocol magic embedded in the address, or mainnet id if none is present
